@@ -34,6 +34,12 @@ MUTANTS: List[Dict[str, Any]] = [
         "edits": [{"file": "rp2/plugin/report/rp2_full_report.py", "old": "        self.__tax_sheet_year_2_row = {}\n\n        template_path", "new": "        template_path"}],
     },
     {
+        "id": "revert-FX9",
+        "what": "JP fee row of a transfer takes its yen value only when it compares greater than zero (the defect fixed by FX9): ValueError on a dust fee of a sub-cent coin",
+        "checks": ["C16", "C20"],
+        "edits": [{"file": "rp2/plugin/report/jp/tax_report_jp.py", "old": "sales_amount_in_yen=transaction_fee_in_yen if transaction_fee_in_crypto > ZERO else None,", "new": "sales_amount_in_yen=transaction_fee_in_yen if transaction_fee_in_yen > ZERO else None,"}],
+    },
+    {
         "id": "hifo-key-flipped",
         "what": "HIFO sort key uses +price (behaves like LOFO)",
         "checks": ["C01"],
